@@ -163,6 +163,7 @@ class Ctx:
                 "property": self.prop, "monitor": monitor, "mech": mech, "class": cls,
                 "seed": self.seed, "shard": self.shard, "tier": self.tier, "optimize": sys.flags.optimize,
                 "no_ossl_ripemd": os.environ.get("VP_NO_OSSL_RIPEMD") == "1", "extra_env": os.environ.get("VP_EXTRA_ENV", ""),
+                "debug_logging": os.environ.get("VP_DEBUG_LOGGING") == "1",
                 "case": jz(case), "expected": jz(expected), "observed": jz(observed),
                 "note": note,
             })
@@ -193,6 +194,12 @@ class Ctx:
             "inconclusive": self.inconclusive,
             "wall_s": time.time() - self.t0,
         }
+
+
+def fresh_str(s):
+    """An equal string that is NOT the same object as any literal in the library (or here): what arrives from JSON, argv, a
+    config file or str.lower().  Code that compares strings by identity works for literals only."""
+    return "".join([s[:1], s[1:]]) if len(s) > 1 else (s + " ").strip()
 
 
 def refused(fn, attempts=3):
